@@ -1,0 +1,7 @@
+//go:build !verif
+
+package pdf
+
+// verifYield marks a scheduling point for the verification harness (see
+// verif_sched_on.go).  Without the build tag "verif" it does nothing.
+func verifYield(string) {}
